@@ -338,8 +338,36 @@ def preempt2_case(draw):
         ys = draw(st.sampled_from(['LM', 'ML', 'M', 'LM', 'LL']))
     else:
         x = ['M', aimed(mut())]
-        ys = draw(st.sampled_from(['L', 'LL']))
-    ys = [look() if c == 'L' else ['M', aimed(mut())] for c in ys]
+        ys = draw(st.sampled_from(['L', 'LL', 'LM', 'LM', 'ML']))
+        if 'M' in ys:
+            # the one two-mutator shape that is kept (see run_preempt2): a
+            # registry being re-based while something is registered in one
+            # of its (new) bases
+            if draw(st.booleans()):
+                # ... starting without that base: invalidating registries
+                # only (they keep track of their sub-registries), the
+                # looked-up one last and without bases
+                while len(bp['regs']) < 2:
+                    bp['regs'].append({'bases': [], 'flavour': 'plain'})
+                for r in bp['regs']:
+                    r['flavour'] = 'plain'
+                bp['regs'][-1]['bases'] = []
+                key[0] = len(bp['regs']) - 1
+            x = ['M', ['rbases', key[0], draw(st.lists(IDX, min_size=1,
+                                                       max_size=2))]]
+    if x[0] == 'M' and 'M' in ys:
+        def elsewhere():
+            # aimed at a base of the looked-up registry (index into its
+            # chain as it is after the re-base)
+            r = draw(st.sampled_from([1, 1, 2]))
+            pick = draw(st.sampled_from([0, 0, 1, 2]))
+            if draw(st.integers(0, 2)):
+                return ['treg', r, pick, draw(st.integers(0, 3)), False,
+                        False]
+            return ['tsub', r, pick, False]
+        ys = [look() if c == 'L' else ['M', elsewhere()] for c in ys]
+    else:
+        ys = [look() if c == 'L' else ['M', aimed(mut())] for c in ys]
     if at_base and draw(st.booleans()):
         # the scenario that needs three operations in flight: a lookup
         # that has just noticed a change of its base (pre) and is running
@@ -1657,8 +1685,21 @@ def run_preempt2(case, cfg, out):
     if not ys:
         out.tag('mutator_not_applicable')
         return
-    the_mutation = xm if xm is not None else \
-        [m for y in ys if y[0] == 'M' for m in y[1]]
+    ym = [m for y in ys if y[0] == 'M' for m in y[1]]
+    if xm and ym and not (
+            xm[0][0] == 'bases' and all(
+                m[0] in ('register', 'subscribe', 'unregister',
+                         'unsubscribe') and m[1] != xm[0][1] for m in ym)):
+        # Two mutators racing each other are outside the statement (it
+        # quantifies over lookups against a mutator).  The one combination
+        # kept is a re-base of one registry while something is registered
+        # in ANOTHER registry: they touch disjoint data, and what matters is
+        # whether the lookup in between leaves a stale entry.
+        ys = [y for y in ys if y[0] == 'L']
+        ym = []
+        out.tag('second_mutator_dropped')
+        if not ys:
+            return
     out.tag('x_' + case['x'][0], 'ys_' + ''.join(y[0] for y in ys),
             'pre' if pre else 'nopre')
 
@@ -1685,16 +1726,29 @@ def run_preempt2(case, cfg, out):
             apply_concrete(regs, m)
         return regs
 
-    t = W.build(log0 + pre)
-    before = answers(t)
-    t = W.build(log0 + pre + the_mutation)
-    after = answers(t)
+    # answers in the four states (interleaved mutation applied or not) x
+    # (interrupted mutation applied or not), on never-interrupted twins
+    xm_ = xm or []
+    S = {}
+    for ay in (False, True):
+        for ax in (False, True):
+            S[(ax, ay)] = answers(W.build(
+                log0 + pre + (ym if ay else []) + (xm_ if ax else [])))
+    before = S[(False, False)]
+    after = S[(True, True)]
+    # if both a mutator is interrupted and another one runs meanwhile,
+    # the final state is only well defined when they commute
+    commute = True
+    if xm_ and ym:
+        commute = answers(W.build(log0 + pre + xm_ + ym)) == after
+        if not commute:
+            out.tag('mutations_do_not_commute')
     tg = W.concretize(['itoggle'] + list(case['toggle']), key)
     after_toggle = None
     if tg:
         tg_old = ('ibases', tg[0][1], list(W.ibases[tg[0][1]]))
         W.do(tg[0])
-        after_toggle = answers(t)
+        after_toggle = answers(W.build(log0 + pre + ym + xm_))
         W.do(tg_old)
     if before != after:
         out.nontrivial = True
@@ -1759,9 +1813,12 @@ def run_preempt2(case, cfg, out):
         for k2, mutated, a in ybox['res']:
             i = keys.index(k2)
             if xm is None:
-                ok = [after[i] if mutated else before[i]]
+                # nothing is in progress while this lookup runs (the
+                # interrupted lookup does not mutate): exact
+                ok = [S[(False, mutated)][i]]
             else:
-                ok = [before[i], after[i]]
+                # the interrupted mutator is in progress
+                ok = [S[(False, mutated)][i], S[(True, mutated)][i]]
             if a not in ok:
                 out.fail('preempt2-other-lookup-' + k2[0],
                          '%s: the interleaved %s answered %r, correct: %r' % (
@@ -1804,7 +1861,7 @@ def run_preempt2(case, cfg, out):
         order = [plain_check, toggle_check]
         if k % 2:
             order.reverse()
-        if not (order[0]() and order[1]()):
+        if commute and not (order[0]() and order[1]()):
             return
 
 
